@@ -14,13 +14,19 @@ for kind in (BALL, KD, LIN):
     quick.append(job("c07.knn", secs=60, n=1, d=1, k=2, kind=kind, metric=L1, leaf=1))
 # metrics whose reduced distance differs from the distance: a linear one (2*L1) on every index kind, and a
 # Euclidean one with L2Dist's structure computed on the scalar (the ball tree x L2Dist itself concretises)
-SCALED_L1, SYM_L2 = 4, 5
+SCALED_L1, SYM_L2, HALF_L1 = 4, 5, 6
 for kind in (BALL, KD, LIN):
+    quick.append(job("c07.knn", secs=60, n=3, d=1, k=2, kind=kind, metric=HALF_L1, leaf=1))
+    quick.append(job("c07.knn", secs=60, n=3, d=1, k=1, kind=kind, metric=HALF_L1, leaf=2))
+    quick.append(job("c07.knn", secs=60, n=2, d=2, k=1, kind=kind, metric=HALF_L1, leaf=2))
     quick.append(job("c07.knn", secs=60, n=3, d=1, k=2, kind=kind, metric=SCALED_L1, leaf=1))
     quick.append(job("c07.knn", secs=60, n=3, d=1, k=1, kind=kind, metric=SCALED_L1, leaf=2))
     quick.append(job("c07.knn", secs=60, n=2, d=2, k=1, kind=kind, metric=SCALED_L1, leaf=1))
 quick.append(job("c07.range", secs=90, jobs=2, n=3, d=1, metric=SCALED_L1, leaf=1))
 quick.append(job("c07.range", secs=90, n=3, d=1, metric=SCALED_L1, leaf=2))
+quick.append(job("c07.range", secs=90, jobs=2, n=3, d=1, metric=HALF_L1, leaf=2))
+# Euclidean structure on quarter-integer coordinates: distances below 1, where r^2 < r
+quick.append(job("c07.knn", secs=120, jobs=2, n=3, d=1, k=1, kind=BALL, metric=SYM_L2, leaf=2, B=6, shift=2, qto=3000))
 quick.append(job("c07.knn", secs=120, jobs=2, n=3, d=1, k=1, kind=BALL, metric=SYM_L2, leaf=2, B=4, qto=3000))
 quick.append(job("c07.knn", secs=120, jobs=2, n=3, d=1, k=2, kind=BALL, metric=SYM_L2, leaf=1, B=4, qto=3000))
 # L2 through rdistance (k-d tree, linear scan); the ball tree's bound concretises (l2_dist) -> not run
